@@ -538,7 +538,9 @@ class ActionTypeHint(Action):
                 else:
                     sub_opt = opt_str[len(f"--{self.dest}.") :]
                 val = NestedArg(key=sub_opt, val=val)
-            append = opt_str == f"--{self.dest}+"
+            append = opt_str == f"--{self.dest}+" or (
+                isinstance(opt_str, str) and opt_str.endswith("+") and opt_str in self.option_strings
+            )
             val = self._check_type_(val, append=append, cfg=cfg)
             if is_subclass_spec(val):
                 prev_val = cfg.get(self.dest)
